@@ -1,6 +1,9 @@
 //! Author heads
 
-use std::{collections::BTreeMap, num::NonZeroU64};
+use std::{
+    collections::{BTreeMap, BTreeSet},
+    num::NonZeroU64,
+};
 
 use anyhow::Result;
 
@@ -70,9 +73,10 @@ impl AuthorHeads {
     /// Will skip oldest entries if the size limit is reached.
     /// Returns a byte array with a maximum length of `size_limit`.
     pub fn encode(&self, size_limit: Option<usize>) -> Result<Vec<u8>> {
-        let mut by_timestamp = BTreeMap::new();
+        // Authors may share a timestamp, so order by (timestamp, author).
+        let mut by_timestamp = BTreeSet::new();
         for (author, ts) in self.iter() {
-            by_timestamp.insert(*ts, *author);
+            by_timestamp.insert((*ts, *author));
         }
         let mut items = Vec::new();
         for (ts, author) in by_timestamp.into_iter().rev() {
